@@ -2,12 +2,13 @@
 import os
 import re
 import shutil
+import signal
 import subprocess
 import time
 
 from .gen import ROOT, REPO
 
-SCRATCH = os.path.join(ROOT, 'build', 'kani-scratch')
+SCRATCH = os.path.join(ROOT, 'build', 'kani-scratch-%d' % os.getpid())
 
 
 def prepare():
@@ -28,16 +29,30 @@ def prepare():
     open(os.path.join(SCRATCH, '.cargo', 'config.toml'), 'w').write('[net]\noffline = true\n')
 
 
-def run_harness(name, timeout=900, mem_gb=24, stubbing=False):
-    cmd = ['prlimit', '--as=%d' % (mem_gb * 1024 ** 3), 'timeout', str(timeout), 'cargo', 'kani', '--harness', 'verif_kani::' + name, '--exact']
+def run_harness(name, timeout=900, mem_gb=24, stubbing=False, slot=0):
+    cmd = ['prlimit', '--as=%d' % (mem_gb * 1024 ** 3), 'cargo', 'kani', '--harness', 'verif_kani::' + name, '--exact']
     if stubbing:
         cmd += ['-Z', 'stubbing']
-    env = dict(os.environ, CARGO_NET_OFFLINE='true', CARGO_TARGET_DIR=os.path.join(ROOT, 'build', 'kani-target'))
+    env = dict(os.environ, CARGO_NET_OFFLINE='true', CARGO_TARGET_DIR=os.path.join(ROOT, 'build', 'kani-target' + ('-%d' % slot if slot else '')))
     t0 = time.time()
-    p = subprocess.run(cmd, cwd=SCRATCH, env=env, stdout=subprocess.PIPE, stderr=subprocess.STDOUT, text=True)
+    # own process group, so that a timeout takes the whole tree (cargo -> kani-driver -> cbmc) and nothing else
+    p = subprocess.Popen(cmd, cwd=SCRATCH, env=env, stdout=subprocess.PIPE, stderr=subprocess.STDOUT, text=True, start_new_session=True)
+    timed_out = False
+    try:
+        out, _ = p.communicate(timeout=timeout)
+    except subprocess.TimeoutExpired:
+        timed_out = True
+        try:
+            os.killpg(p.pid, signal.SIGKILL)
+        except ProcessLookupError:
+            pass
+        out, _ = p.communicate()
+    p.stdout = out
+    if timed_out:
+        p.returncode = 124
     out = p.stdout
     wall = time.time() - t0
-    res = dict(harness=name, wall_s=round(wall, 1), rc=p.returncode, cmd=' '.join(cmd[4:]))
+    res = dict(harness=name, wall_s=round(wall, 1), rc=p.returncode, cmd=' '.join(cmd[2:]))
     m = re.search(r'VERIFICATION:- (\w+)', out)
     res['verdict'] = m.group(1) if m else ('TIMEOUT' if p.returncode == 124 else 'ERROR')
     m = re.search(r'\*\* (\d+) of (\d+) failed', out)
@@ -51,10 +66,13 @@ def run_harness(name, timeout=900, mem_gb=24, stubbing=False):
     if res['verdict'] == 'FAILED' and not res['failed_checks'] and res['ignored_runtime_checks']:
         res['verdict'] = 'SUCCESSFUL'
         res['note'] = 'only Kani-runtime dealloc checks failed (stubbing artefact)'
+    if res['verdict'] == 'FAILED' and not res['failed_checks'] and ('CBMC failed' in out or 'out of memory' in out or not res.get('failed')):
+        # the back end gave up (memory / internal error) or reported no failed check at all: undecided, never a violation
+        res['verdict'] = 'ERROR'
+        res['note'] = 'back end failure without a failed check (memory / internal error)'
     res['tail'] = out[-1500:]
     return res
 
 
 def cleanup():
     shutil.rmtree(SCRATCH, ignore_errors=True)
-    subprocess.run(['pkill', '-f', 'cbmc'], stdout=subprocess.DEVNULL, stderr=subprocess.DEVNULL)
